@@ -53,6 +53,7 @@ def run(ctx):
   msg = okio and any(any(u(a) == u(outer[0].iter) for a in ops) for _c, _t, ops in format_sites(rs[0].ast))
   ctx.check(okio and msg, 'C14.ioerror', con, 'a name nobody can read raises IOError naming the locations searched (and nothing is applied)',
             'the fall-through of the search no longer raises an IOError that names the locations searched', pf.loc(), instance='ioerror')
+  ctx.borrow('C16', 'C16.propagate', 'C14.ioerror')     # ... and that IOError reaches the caller: no handler on the parse path swallows it
   # nested call forwards the option
   calls = [c for c in walk_local(pf.node) if isinstance(c, ast.Call) and prog.resolve_call(pf, c) == 'config.parse_config']
   ctx.check(bool(calls) and all(passes(c, 1, 'skip_unknown') for c in calls), 'C14.entry', con, 'parse_config_file forwards skip_unknown to parse_config',
